@@ -117,6 +117,33 @@ PROPS = {
         "note": "Trusted: as C05; the dump through NewInternalIterator + exact-version point reads.",
         "design_ref": "7/C04", "assumptions": E1_ASSUME + ["client tasks and engine workers are released one at a time at yield sites: oracle timestamps (readTs/newCommitTs/doneCommit), watermark Begin/Done/advance/rebuild, commit worker stages, request enqueue/ack, and harness-level call boundaries; return events are stamped when the task is next scheduled (intervals can only widen)"],
     },
+    "C34": {
+        "engine": "dbsim", "level": "exploration", "budget": {"quick": 25, "thorough": 600},
+        "title": "Concurrent plain writes and reads are linearizable",
+        "technique": "deterministic simulation: 2-4 client tasks issue plain Set/Del/Get with unique values while the commit worker is a scheduled task (requests coalesce into batches), the L0 throttle is toggled by simulator actions, batch limits are small so that writes fail with too-large/blocked errors; per-key histories stamped with scheduler event numbers are checked with porcupine against a register with delete",
+        "rule": "case = per-task operation scripts + throttle actions at generated scheduling steps + configuration (batch limits, queue capacity 0/2, scheduling policy uniform/PCT) + seeded schedule; errored writes are left out of the history (so a later read of their value is illegal); porcupine Unknown is counted, never reported; distinct = distinct trace hash; non-trivial = at least 6 calls and more than 20 scheduling steps",
+        "level_text": "Seeded search over interleavings with a linearizability checker on the recorded history; <= 40 operations per key keeps the check tractable.",
+        "note": "Trusted: porcupine v1.3.0; return events are stamped when the task is next scheduled (intervals only widen, so no false alarm can result).",
+        "design_ref": "7/C34", "assumptions": E1_ASSUME + ["client tasks and engine workers are released one at a time at yield sites; return events are stamped when the task is next scheduled (intervals can only widen)"],
+    },
+    "C37": {
+        "engine": "dbsim", "level": "exploration", "budget": {"quick": 25, "thorough": 600},
+        "title": "Operations and Close always finish",
+        "technique": "deterministic simulation, bounded liveness: plain operations and transactions from 2-4 tasks with L0 throttle toggles, a tiny commit queue, a shrunk watermark window, and Close issued by one task while the others are mid-operation (operations continue after the close); after the fault phase the scheduler drains fairly with simulated time advancing and every call must have returned",
+        "rule": "case as C34 plus transactions, commit-queue capacity 2, watermark window 4, optional racing Close; oracle: every call returns (value or error, never a panic) within 8000 scheduling steps / 4 simulated seconds after the last fault, Close returns; a run ending with a call still blocked and nothing enabled is the violation (with the blocked tasks and their last sites); distinct/non-trivial as C34",
+        "level_text": "Seeded search over interleavings with a bounded-liveness oracle (progress within a step/time budget once faults stop).",
+        "note": "Trusted: the step and time budgets are generous (two orders of magnitude above observed completion); synctest quiescence detection.",
+        "design_ref": "7/C37", "assumptions": E1_ASSUME + ["client tasks and engine workers are released one at a time at yield sites; return events are stamped when the task is next scheduled (intervals can only widen)"],
+    },
+    "C36": {
+        "engine": "dbsim", "level": "exploration", "budget": {"quick": 25, "thorough": 600},
+        "title": "WAL segment cleanup never removes data still needed",
+        "technique": "deterministic simulation with crash images: a real DB whose WAL also carries one or two raft groups (engine.WALStorage on the DB's WAL and manifest); transactional writes, memtable rotation/flush, raft Append/SetHardState/MaybeCompact, WAL watchdog passes with auto-GC, compactions; WAL synced then a process-crash image (or clean reopen) is opened and DB contents and raft logs are compared with models",
+        "rule": "case = seeded interleaving of DB writes, raft storage calls, maintenance, watchdog passes and crash/reopen points + configuration swarm; oracle after each reopen: every acknowledged DB write is readable with its exact value; the reopened WALStorage returns every entry above the group's truncation point (later conflicting appends win); distinct = distinct trace hash; non-trivial = at least one crash image with raft appends and accepted DB batches",
+        "level_text": "Seeded search over histories x cleanup placement x crash points; oracle = exact accounting of acknowledged writes and an etcd-style log model.",
+        "note": "Trusted: crash-image model (WAL synced before the image so user-space buffering, C21's subject, is out of the picture), dump through exact-version reads.",
+        "design_ref": "7/C36", "assumptions": E1_ASSUME,
+    },
 }
 
 # Merge per-engine registries (props_<engine>.py).
